@@ -44,6 +44,7 @@ func DefaultConfig() Config {
 
 type Stats struct {
 	Paths, Branches, UnknownBranches, FeasQ, Obligations, Concretizations, SymIndex, IfConv, IfConvAbort int
+	ChoiceForks int
 	Steps                                                                                                 int64
 	Stops                                                                                                 map[string]int
 }
@@ -300,6 +301,7 @@ func (r *Run) Explore() {
 	wg.Wait()
 	for _, w := range workers {
 		r.Stats.Branches += w.stats.Branches
+		r.Stats.ChoiceForks += w.stats.ChoiceForks
 		r.Stats.UnknownBranches += w.stats.UnknownBranches
 		r.Stats.FeasQ += w.stats.FeasQ
 		r.Stats.Obligations += w.stats.Obligations
